@@ -313,6 +313,53 @@ def tell_scripts(rng, n):
     return out
 
 
+def shared_node_scripts(rng, n):
+    """constructs whose bytecode shares ONE operand between several places of the emitted text: the list of `repeat with x in E`
+    (copied on the stack into count(E), getAt(E, 1) and the loop header) and the arguments of a call on `me` inside a factory
+    method (generated once for the call and once for the dispatch). E ranges over every expression form, not only variables
+    and linear lists (seeded change C04-m6: a generator that is not repeatable showed only there)."""
+    out = []
+    forced = lambda g, env: rng.choice([
+        ["pl", ["y", "name"], ["s", S("Jhon")], ["y", "age"], ["i", 30]],
+        ["pl", ["y", "a"], ["i", 1]],
+        ["li", ["pl", ["y", "a"], ["i", 1], ["y", "b"], ["i", 2]], ["i", 3]],
+        ["c", "getList", ["pl", ["y", "a"], ["i", 1], ["y", "b"], ["li", ["i", 1], ["i", 2]]]],
+        ["li", ["li", ["i", 1], ["i", 2]], ["li", ["i", 3]]],
+        ["b", "add", ["l", env["locals"][0]], ["li", ["i", 1], ["i", 2]]],
+        ["m", ["l", env["objs"][0]], "mGet", ["pl", ["y", "a"], ["i", 1], ["y", "b"], ["i", 2]]],
+        ["the", "sys", 0x1b], ["fld", ["i", 3]], ["ch", "word", ["i", 1], ["i", 0], ["fld", ["i", 2]]]])
+    for i in range(n):
+        kind = rng.choice(["plain", "props", "factory", "factory"])
+        g = L.Gen(rng, kind)
+        if kind != "plain":
+            g.props = rng.sample(L.PROPS, rng.choice([1, 2]))
+        names = L.handler_names(rng.choice([1, 2, 3]), rng, kind == "factory")
+        g.handlers = names
+        hs = []
+        for nm in names:
+            def body(env):
+                items = []
+                for _ in range(rng.choice([1, 2, 3])):
+                    e = forced(g, env) if rng.random() < 0.5 else g.expr(env, rng.choice([1, 2, 3]))
+                    c = rng.random()
+                    if c < 0.5 or kind != "factory":
+                        x = ["l", env["locals"][-1]]
+                        inner = [["call", "put", x]]
+                        if rng.random() < 0.3:
+                            inner.append(["in", ["l", env["locals"][0]], forced(g, env), ["call", "put", ["l", env["locals"][0]]]])
+                        items.append(["in", x, e] + inner)
+                    elif c < 0.8:
+                        items.append(["mcall", "me", rng.choice(L.METHODS)] + [g.expr(env, 1) for _ in range(rng.choice([0, 1]))] + [e])
+                    else:
+                        items.append(["set", ["l", env["locals"][0]], ["m", "me", rng.choice(L.METHODS), e]])
+                    if rng.random() < 0.4:
+                        items.append(["set", ["l", env["locals"][0]], e])      # the same expression once more, generated once
+                return items
+            hs.append(g.handler(nm, body))
+        out.append(dict(tree=g.script(hs), pre=[], kind="shared-node"))
+    return out
+
+
 def _p(body, name="probe", params=("a",), kind="plain", props=(), hdr_globals=()):
     tree = ["script", ["factory", "-"], ["props"] + list(props), ["globals"] + list(hdr_globals), ["on", name, list(params)] + body]
     return dict(tree=with_kind(tree, kind, None) if kind != "plain" else tree, pre=[], kind="probe")
@@ -389,6 +436,7 @@ def cases(rng, tier):
         scripts.append(dict(tree=with_kind(s["tree"], rng.choice(["plain", "props", "factory"]), rng), pre=s.get("pre", []), kind=s["kind"]))
     scripts += c02.wide_scripts(rng)
     scripts += tell_scripts(rng, dict(quick=150, thorough=3000, search=1500)[tier])
+    scripts += shared_node_scripts(rng, dict(quick=120, thorough=2500, search=1200)[tier])
     scripts += L.border_scripts(rng, tier)
     for sc in scripts:
         t = sc["tree"]
